@@ -953,6 +953,26 @@ impl AutosarModel {
     }
 
     /// create a weak reference to this data
+    /// verification hook (read-only): all keys of the reverse reference map with their referrer lists
+    #[cfg(danielt_autosar_data_verif)]
+    #[must_use]
+    pub fn verif_reference_origins(&self) -> Vec<(String, Vec<WeakElement>)> {
+        let model = self.0.read();
+        model
+            .reference_origins
+            .iter()
+            .map(|(k, v)| (k.clone(), v.clone()))
+            .collect()
+    }
+
+    /// verification hook (read-only): all entries of the path index, in index order
+    #[cfg(danielt_autosar_data_verif)]
+    #[must_use]
+    pub fn verif_identifiables(&self) -> Vec<(String, WeakElement)> {
+        let model = self.0.read();
+        model.identifiables.iter().map(|(k, v)| (k.clone(), v.clone())).collect()
+    }
+
     pub(crate) fn downgrade(&self) -> WeakAutosarModel {
         WeakAutosarModel(Arc::downgrade(&self.0))
     }
